@@ -220,6 +220,8 @@ SCENARIOS = [
     ([["create", "a"], ["prebuild", "o1", [], "f"]], [[["move_in", "o1", "a"]], [["unlink", "a"]]]),
     # a directory leaves and comes straight back under another name, then something happens inside
     ([["mkdir", "a"], ["mkdir", "a/ab"]], [[["move_out", "a", "x0"], ["move_in", "x0", "b"]], [["create", "b/ab/a"]]]),
+    # ... then a new directory takes the old name and is renamed, then something happens below the directory that came back
+    ([["mkdir", "a"], ["mkdir", "a/ab"]], [[["move_out", "a", "x0"], ["move_in", "x0", "b"]], [["mkdir", "a"]], [["rename", "a", "ab"]], [["mkdir", "b/ab/b"]], [["rename", "b/ab/b", "b/ab/ab"]], [["create", "ab/a"]]]),
 ]
 
 
